@@ -132,6 +132,7 @@ type Sim struct {
 	SwitchPairs map[string]struct{}
 	Trace       []string // first scheduling decisions, for samples
 	TraceAll    bool
+	recent      [16]string // ring of the last scheduling decisions
 	SimTime     time.Duration
 	nroot       int
 	nativeAny   bool
@@ -576,6 +577,7 @@ func (s *Sim) Run() Outcome {
 		if s.TraceAll || len(s.Trace) < 40 {
 			s.Trace = append(s.Trace, g.Name+"@"+g.Site)
 		}
+		s.recent[s.Step%len(s.recent)] = g.Name + "@" + g.Site
 		g.state.Store(gRunning)
 		g.try = nil
 		s.cur = g
@@ -690,4 +692,32 @@ func HashString(s string) uint64 {
 	h := fnv.New64a()
 	h.Write([]byte(s))
 	return h.Sum64()
+}
+
+// AtomicNR / AtomicNV replace sync/atomic operations in instrumented code: a
+// scheduling point, then the operation itself.
+func Atomic0R[R any](site string, f func() R) R                     { Yield(site); return f() }
+func Atomic1R[A, R any](site string, f func(A) R, a A) R            { Yield(site); return f(a) }
+func Atomic2R[A, B, R any](site string, f func(A, B) R, a A, b B) R { Yield(site); return f(a, b) }
+func Atomic3R[A, B, C, R any](site string, f func(A, B, C) R, a A, b B, c C) R {
+	Yield(site)
+	return f(a, b, c)
+}
+func Atomic0V(site string, f func())                                    { Yield(site); f() }
+func Atomic1V[A any](site string, f func(A), a A)                       { Yield(site); f(a) }
+func Atomic2V[A, B any](site string, f func(A, B), a A, b B)            { Yield(site); f(a, b) }
+func Atomic3V[A, B, C any](site string, f func(A, B, C), a A, b B, c C) { Yield(site); f(a, b, c) }
+
+// RecentSites lists the last n scheduling decisions (oldest first).
+func (s *Sim) RecentSites(n int) string {
+	if n > len(s.recent) {
+		n = len(s.recent)
+	}
+	var out []string
+	for i := s.Step - n + 1; i <= s.Step; i++ {
+		if i > 0 {
+			out = append(out, s.recent[i%len(s.recent)])
+		}
+	}
+	return strings.Join(out, " ")
 }
